@@ -548,7 +548,10 @@ def build(case, ctx):
         elif v == 4:  # blocked on missing dynamic entries, then FIN, then maybe an insert that unblocks
             ric = ctx.dyn + 1 + (k % 3)
             extra_name = [b"x-ok", b"X-Bad", b"\xff\xfe", b":late"][(k // 3) % 4]
-            blk = block(valid_message_fields(role) + [f_dynamic(0)], ric=ric)
+            # the blocked section is parsed only when it gets unblocked: a malformed field line in it (post-base index
+            # beyond the table, dynamic reference out of range, truncated literal) surfaces at *resume* time
+            tail = [[], [pint(5, 4, 0x10)], [f_dynamic(ric + 7)], [qstr(b"name", 3, 0x20)]][(k // 4) % 4]
+            blk = block(valid_message_fields(role) + [f_dynamic(0)] + tail, ric=ric)
             segs.append((sid, fr(1, blk) + (fr(0, b"abc") if k % 2 else b""), bool(fin)))
             if not fin and k % 5 == 0:
                 segs.append((sid, b"", True))
